@@ -47,6 +47,9 @@ def gen_component(rng, kinds, T):
     c = {"ftype": k, "reorg": r3(rng.uniform(5, 120)), "T": T, "unit": str(rng.choice(UNITS))}
     if k in ("OverdampedBrownian", "OverdampedBrownian-HighTemperature"):
         c["cortime"] = r3(rng.uniform(20, 200))
+        if k == "OverdampedBrownian" and rng.random() < 0.35:
+            # the optional number of Matsubara terms: a property of this component only
+            c["matsubara"] = int(rng.choice([3, 20, 30]))
     elif k == "UnderdampedBrownian":
         c["freq"] = r3(rng.uniform(100, 800))
         c["gamma"] = r3(1.0 / rng.uniform(30, 300))     # 1/fs, handed over as a plain number
@@ -112,6 +115,8 @@ def construct(qr, fkind, axis, c, values=None):
     prm["reorg"] = c["reorg"] * UFAC[u]
     if "cortime" in c:
         prm["cortime"] = c["cortime"]
+    if "matsubara" in c:
+        prm["matsubara"] = c["matsubara"]
     if "freq" in c:
         prm["freq"] = c["freq"] * UFAC[u]
     if "gamma" in c:
